@@ -390,8 +390,9 @@ def run(chk):
     sc, tof, bl, utils = _load()
     from symex import loader
 
-    chk.functions = loader.describe([utils.elem_unit, utils.elem_dtype, utils.float_dtype, utils.as_float_type, *[getattr(tof, k) for k in kin.KERNELS],
-                                     tof.energy_transfer_direct_from_tof, tof.energy_transfer_indirect_from_tof, bl.scattering_angles_with_gravity, bl._drop_due_to_gravity])
+    chk.functions = loader.describe([getattr(tof, k) for k in kin.KERNELS]) + loader.describe_exprs(
+        ['utils.elem_unit', 'utils.elem_dtype', 'utils.float_dtype', 'utils.as_float_type', 'tof.energy_transfer_direct_from_tof', 'tof.energy_transfer_indirect_from_tof',
+         'bl.scattering_angles_with_gravity', 'bl._drop_due_to_gravity'], {**globals(), **locals()})
     dts = ['float64', 'float32', 'int64']
     jobs = [(k, d, None) for k in kin.KERNELS for d in dts]
     jobs += [(k, 'float64', (2, 2)) for k in ('wavelength_from_tof', 'dspacing_from_tof', 'energy_from_tof')]
@@ -399,7 +400,7 @@ def run(chk):
     run_jobs(chk, job_inelastic, [(m, d) for m in ('direct', 'indirect') for d in ('float64', 'float32')])
     run_jobs(chk, job_gravity, ['float64', 'float32'])
     conv = loader.load('core.conversions')
-    chk.functions += loader.describe([conv.convert, conv.deduce_conversion_graph, conv._deduce_energy_mode])
+    chk.functions += loader.describe_exprs(['conv.convert', 'conv.deduce_conversion_graph', 'conv._deduce_energy_mode'], {**globals(), **locals()})
     lj = [(lay, 'tof', tgt, d) for lay in LAYOUTS for tgt, d in (('wavelength', 'float64'), ('dspacing', 'int64'), ('energy', 'float32'))]
     if chk.tier == 'thorough':
         lj += [(lay, 'tof', tgt, d) for lay in LAYOUTS for tgt, d in (('Q', 'float32'), ('energy', 'int64'), ('wavelength', 'int32'))]
